@@ -110,6 +110,17 @@ def run(rep, F, ctx):
             ok = bool(d1) and bool(d2) and all(B.dominates(b2, b1) and b1 != b2 for b1 in d1 for b2 in d2)
         rep.add('DEFER-SCOPE', 'defer:reverse-order', 'two defer! guards are dropped in reverse order of creation', ok, '%s:%d' % (B.file, B.line),
                 '' if ok else 'the second guard is not dropped before the first')
+    rep.rule('EXACT-LEN', 'IteratorExt::slice and IteratorExt::drop never consult size_hint() / ExactSizeIterator::len(): index arithmetic relative to the end needs the '
+             'exact length (count of a clone), and an upper bound is not the length for filtered or char iterators')
+    for m in ('slice', 'drop'):
+        fn = '<T as core::iter::IteratorExt>::%s' % m
+        if fn not in F.bodies:
+            rep.add('EXACT-LEN', 'exactlen:%s' % m, 'IteratorExt::%s exists' % m, False, detail='anchor missing')
+            continue
+        B = cg.body(fn)
+        bad = [(t.get('callee') or '') for i, t in B.calls() if (t.get('callee') or '').split('::')[-1] in ('size_hint', 'len') and 'Iterator' in (t.get('callee') or '')]
+        rep.add('EXACT-LEN', 'exactlen:%s' % m, 'IteratorExt::%s does not derive a length from size_hint' % m, not bad, '%s:%d' % (B.file, B.line),
+                '' if not bad else 'IteratorExt::%s uses %s as the sequence length: wrong indices for iterators whose size hint is not exact (Filter, chars())' % (m, bad))
     return engine.finish(
         rep, 'other', EXPLANATION,
         assumptions=['Rust drop semantics: a named local is dropped exactly once when its scope ends, in reverse declaration order, also during unwinding'],
